@@ -20,7 +20,6 @@ E5  free-running real-time records (real clock, real scheduler thread) validated
 """
 import os
 import random
-import re
 
 import pool_common
 import vlib
@@ -28,19 +27,14 @@ from vlib import ToolError
 
 SPEC = 'spec/timedtask'
 WHAT = 'TimedTask run count / cancellation / teardown'
-INVS = 'TypeOK RunCount NoneAfterFalse NoneAfterCancel NotEarly FuncLifetime DtorQuiescent DetachedKeepsFunc InProgressExact'
 
 # every action of the spec; per configuration only some are reachable, the union over the
 # configurations of a tier must be complete (checked below)
 VARIANT_ONLY = {'TtFnDecInProgress'}          # "incfirst" negative control only
 
 
-def tcfg(at, per, times, steady, inl, false_at):
-    return 'C(%d, %d, %d, %s, %s, %d)' % (at, per, times, 'TRUE' if steady else 'FALSE', 'TRUE' if inl else 'FALSE', false_at)
-
-
 class Scen:
-    """one scenario: text for the driver, constants for TLC"""
+    """one scenario: the text read by the driver (which writes it, as TLA+ values, into the Reset line)"""
 
     def __init__(self, w, tasks, prog):
         self.w, self.tasks, self.prog = w, tasks, prog
